@@ -93,61 +93,108 @@ func vfDescribeSpec(s *vfSpec, depth int) string {
 func vfGenHistory(rng *verifrt.Rand, emph string) *vfHistory {
 	h := &vfHistory{}
 	n := 2 + rng.Intn(6)
+	if emph == "kill" {
+		n = 4 + rng.Intn(17)
+	}
 	var specs []*vfSpec
+	depth := map[*vfSpec]int{}
 	decPool := vfAllDecisions
 	for i := 0; i < n; i++ {
 		s := &vfSpec{Name: fmt.Sprintf("n%d", i)}
-		if rng.Chance(55) {
+		stratPct := 55
+		if emph == "kill" {
+			stratPct = 20
+		}
+		if rng.Chance(stratPct) {
 			s.Strategy = 1 + rng.Intn(2)
 			for k := 0; k < 3; k++ {
 				d := decPool[rng.Intn(len(decPool))]
 				if d.IsEscalate() && rng.Chance(50) {
 					d = decPool[rng.Intn(5)]
 				}
+				if emph == "life" && rng.Chance(50) {
+					d = decPool[rng.Intn(2)] // restarts dominate
+				}
 				s.Decisions = append(s.Decisions, d)
 			}
 		}
 		s.Provider = rng.Chance(30)
+		if emph == "life" {
+			s.Provider = rng.Chance(60)
+		}
 		if rng.Chance(12) {
 			hooks := []string{"prerestart", "restarted", "prelaunch"}
 			s.HookFail = map[string]int{hooks[rng.Intn(3)]: 1 + rng.Intn(2)}
 		}
-		if rng.Chance(30) {
+		if rng.Chance(30) || emph == "kill" {
 			s.Loop = 200 * time.Millisecond
 		}
-		if rng.Chance(30) {
+		if rng.Chance(30) || emph == "kill" {
 			s.Subs = []int{rng.Intn(2)}
 		}
-		if rng.Chance(15) {
+		if rng.Chance(15) || (emph == "life" && rng.Chance(40)) {
 			s.BecomeAt = 1 + rng.Intn(3)
+		}
+		if emph == "life" && rng.Chance(15) {
+			s.FailLaunchInc = 2 // the second incarnation fails in OnLaunch again
+			s.FailMode = rng.Intn(2)
 		}
 		if i == 0 || rng.Chance(20) {
 			h.Tops = append(h.Tops, s)
+			depth[s] = 1
 		} else {
-			p := specs[rng.Intn(len(specs))]
-			p.Children = append(p.Children, s)
+			var p *vfSpec
+			for try := 0; try < 20; try++ {
+				c := specs[rng.Intn(len(specs))]
+				if depth[c] < 4 && len(c.Children) < 3 {
+					p = c
+					break
+				}
+			}
+			if p == nil {
+				h.Tops = append(h.Tops, s)
+				depth[s] = 1
+			} else {
+				p.Children = append(p.Children, s)
+				depth[s] = depth[p] + 1
+			}
 		}
 		specs = append(specs, s)
 		h.Names = append(h.Names, s.Name)
 	}
 	vias := []string{"actorof", "actorof", "clone", "parse", "find"}
 	ops := []string{"noop", "noop", "noop", "noop", "noop", "panic", "failed", "stash", "unstash", "unstashn", "become", "unbecome"}
+	if emph == "life" {
+		ops = []string{"noop", "noop", "panic", "panic", "failed", "failed", "become", "unbecome", "stash", "unstash"}
+	}
+	// step-kind thresholds: tell, kill, spawn, watch, unwatch, ghost, (rest: burst)
+	th := []int{55, 70, 78, 84, 87, 90}
+	if emph == "kill" {
+		th = []int{12, 45, 60, 78, 82, 84}
+	}
+	if emph == "life" {
+		th = []int{65, 73, 83, 85, 86, 88}
+	}
 	spawned := 0
+	hot := h.Names[rng.Intn(len(h.Names))] // a favourite target, so that sequences concentrate on one actor
 	var one func(depth int) vfHStep
 	one = func(depth int) vfHStep {
 		tgt := h.Names[rng.Intn(len(h.Names))]
+		if rng.Chance(35) {
+			tgt = hot
+		}
 		r := rng.Intn(100)
 		switch {
-		case r < 55:
+		case r < th[0]:
 			op := ops[rng.Intn(len(ops))]
 			st := vfHStep{Kind: "tell", Target: tgt, Op: op, Via: vias[rng.Intn(len(vias))]}
 			if op == "unstashn" {
 				st.Arg = rng.Intn(4)
 			}
 			return st
-		case r < 70:
+		case r < th[1]:
 			return vfHStep{Kind: "kill", Target: tgt, Poison: rng.Bool(), Via: vias[rng.Intn(len(vias))]}
-		case r < 78:
+		case r < th[2]:
 			spawned++
 			name := fmt.Sprintf("s%d", spawned)
 			if rng.Chance(25) { // reuse a name that may be alive or dead
@@ -155,18 +202,39 @@ func vfGenHistory(rng *verifrt.Rand, emph string) *vfHistory {
 			} else {
 				h.Names = append(h.Names, name)
 			}
-			return vfHStep{Kind: "spawn", Target: tgt, Arg: &vfSpec{Name: name, Loop: time.Duration(rng.Intn(2)) * 200 * time.Millisecond, Subs: []int{1}}}
-		case r < 84:
+			sp := &vfSpec{Name: name, Loop: time.Duration(rng.Intn(2)) * 200 * time.Millisecond, Subs: []int{1}}
+			if emph == "life" && rng.Chance(30) {
+				sp.PrelaunchFailFirst = true // ActorOf must return an error and the instance must never receive anything
+			}
+			return vfHStep{Kind: "spawn", Target: tgt, Arg: sp}
+		case r < th[3]:
 			return vfHStep{Kind: "watch", Target: tgt, Arg: h.Names[rng.Intn(len(h.Names))]}
-		case r < 87:
+		case r < th[4]:
 			return vfHStep{Kind: "unwatch", Target: tgt, Arg: h.Names[rng.Intn(len(h.Names))]}
-		case r < 90:
+		case r < th[5]:
 			return vfHStep{Kind: "ghost", Target: fmt.Sprintf("/never/%d", rng.Intn(3))}
 		default:
 			if depth > 0 {
 				return vfHStep{Kind: "tell", Target: tgt, Op: "noop", Via: "actorof"}
 			}
 			b := vfHStep{Kind: "burst"}
+			if emph == "kill" && rng.Chance(60) {
+				// aimed races: several killers on one victim, kill racing a spawn inside the victim, watch racing the kill
+				victim := tgt
+				for k := 1 + rng.Intn(3); k > 0; k-- {
+					b.Sub = append(b.Sub, vfHStep{Kind: "kill", Target: victim, Poison: rng.Bool(), Via: vias[rng.Intn(len(vias))]})
+				}
+				if rng.Bool() {
+					spawned++
+					nm := fmt.Sprintf("s%d", spawned)
+					h.Names = append(h.Names, nm)
+					b.Sub = append(b.Sub, vfHStep{Kind: "spawn", Target: victim, Arg: &vfSpec{Name: nm, Loop: 200 * time.Millisecond, Subs: []int{0}}})
+				}
+				if rng.Bool() {
+					b.Sub = append(b.Sub, vfHStep{Kind: "watch", Target: h.Names[rng.Intn(len(h.Names))], Arg: victim})
+				}
+				return b
+			}
 			for k := 2 + rng.Intn(3); k > 0; k-- {
 				b.Sub = append(b.Sub, one(1))
 			}
@@ -437,20 +505,14 @@ func vfRunHistory(h *vfHistory, res *vfCellResult) {
 	}
 }
 
-func TestVerif_histories(t *testing.T) {
-	R := verifrt.NewReport("histories", "PRNG histories: tree of 2-7 recording actors (random strategies, 3-decision lists, providers, failing restart hooks, Loop jobs, subscriptions, Become points), 4-17 steps from {tell x 12 ops x 4 ways of obtaining the ref, kill poison/immediate, spawn incl. name reuse, watch, unwatch, tell to never-existing path, race of 2-4 of these from separate goroutines at one virtual instant}; quiescence after each step; then probes, release checks, 3 loop intervals of silence, name reuse. non-trivial+distinct = distinct histories (by observed event histogram) with >=1 failure or kill observed")
-	defer R.Flush()
-	n := verifrt.EnvInt("VERIF_N", 3000)
-	if verifrt.Thorough() {
-		n = 100000
-	}
+func vfRunHistories(t *testing.T, R *verifrt.Report, check, emph string, n int) {
 	only := verifrt.EnvInt("VERIF_CASE", -1)
 	for ci := 0; ci < n; ci++ {
 		if !verifrt.Mine(ci) || (only >= 0 && only != ci) {
 			continue
 		}
-		rng := verifrt.NewRand(verifrt.CaseSeed("histories", ci))
-		h := vfGenHistory(rng, "")
+		rng := verifrt.NewRand(verifrt.CaseSeed(check, ci))
+		h := vfGenHistory(rng, emph)
 		hs := h.String()
 		R.Journal(ci, hs)
 		res := &vfCellResult{}
@@ -502,4 +564,36 @@ func TestVerif_histories(t *testing.T) {
 			R.Sample(map[string]any{"history": verifrt.Short(hs, 1200), "observed": res.sig, "trace": verifrt.Short(res.trace, 700)})
 		}
 	}
+}
+
+const vfHistRule = "quiescence (synctest.Wait) after each step; then paused/state invariant, probes through the latest refs, release checks (registry, FindActor, event-stream tables), 3 loop intervals of silence for dead owners, same-name reuse, conservation ledger, lifecycle automaton, kill-order / exactly-once notices, watcher notices, tree consistency, handler overlap. non-trivial+distinct = distinct histories (by observed event histogram + length) in which at least one failure or kill was observed"
+
+func TestVerif_histories(t *testing.T) {
+	R := verifrt.NewReport("histories", "PRNG histories: tree of 2-7 recording actors (random strategies, 3-decision lists, providers, failing restart hooks, Loop jobs, subscriptions, Become points), 4-17 steps from {tell x 12 ops x 4 ways of obtaining the ref, kill poison/immediate, spawn incl. name reuse, watch, unwatch, tell to never-existing path, race of 2-4 of these from separate goroutines at one virtual instant}; "+vfHistRule)
+	defer R.Flush()
+	n := verifrt.EnvInt("VERIF_N", 3000)
+	if verifrt.Thorough() {
+		n = 100000
+	}
+	vfRunHistories(t, R, "histories", "", n)
+}
+
+func TestVerif_killtree(t *testing.T) {
+	R := verifrt.NewReport("killtree", "PRNG kill-centred histories: trees of 4-20 actors (depth <= 4, fan-out <= 3), every actor holding a subscription and a Loop job; steps dominated by kill (poison/immediate, any node, 4 ways of obtaining the ref, repeated), watch/unwatch, spawn incl. name reuse, and aimed races at one virtual instant: 1-3 killers on one victim || spawn inside the victim || watch of the victim; "+vfHistRule)
+	defer R.Flush()
+	n := verifrt.EnvInt("VERIF_N", 2000)
+	if verifrt.Thorough() {
+		n = 60000
+	}
+	vfRunHistories(t, R, "killtree", "kill", n)
+}
+
+func TestVerif_lifecycle(t *testing.T) {
+	R := verifrt.NewReport("lifecycle", "PRNG restart-centred histories: providers (60%), Become points (40%), restart decisions dominate, repeated failures aimed at a favourite actor (panic and Failed), OnLaunch failing again in the 2nd incarnation, children spawned whose Prelaunch refuses the first launch (ActorOf must fail, instance must stay silent); "+vfHistRule)
+	defer R.Flush()
+	n := verifrt.EnvInt("VERIF_N", 3000)
+	if verifrt.Thorough() {
+		n = 100000
+	}
+	vfRunHistories(t, R, "lifecycle", "life", n)
 }
